@@ -329,6 +329,48 @@ fn comp_events(sh: &mut Shards, c: &Cfg, px: &[[f32; 3]], w: usize, h: usize, rn
     }
 }
 
+/// C06 through the COMPOSITE entry points (Rgb <-> Xyb directly): every supported primaries set x four transfers; the
+/// direct conversion is logged next to the same chain of stages issued by hand, as bits (drift) and as decimals (judged:
+/// the composite must agree with its stages within the stages' budgets, or the primaries / transfer stage inside it is
+/// not the one C06 / C03 describe)
+pub fn gen_comp06(sh: &mut Shards, o: &Opts) -> serde_json::Value {
+    let mut rng = Rng::new(o.seed, 0x0606_c0);
+    let mut n = 0u64;
+    let e = |x: yuvxyb::ConversionError| crate::frames::err_name_conv(x).to_string();
+    for &p in CP_SUP.iter() {
+        for &t in &[13u8, 1, 16, 8, 4] {
+            for rep in 0..(if o.thorough { 6 } else { 2 }) {
+                let (w, h) = (4usize, 2 + rep % 2);
+                let px: Px = (0..w * h).map(|i| if i == 0 { [1.0, 1.0, 1.0] } else { [rng.unit() as f32, rng.unit() as f32, rng.unit() as f32] }).collect();
+                let (tt, pp) = (tc(t), cp(p));
+                let rgb = || Rgb::new(px.clone(), w, h, tt, pp).map_err(|_| "ctor".to_string());
+                let xyb = || LinearRgb::new(px.clone(), w, h).map(Xyb::from).map_err(|_| "ctor".to_string());
+                let both = |s: &mut String, key: &str, r: &Result<Px, String>| match r {
+                    Ok(d) => {
+                        let _ = write!(s, ",\"r{key}\":\"ok\"");
+                        bits(s, key, d);
+                        let _ = write!(s, ",\"{key}f\":");
+                        list(s, d, crate::util::px_fx);
+                    }
+                    Err(x) => {
+                        let _ = write!(s, ",\"r{key}\":\"{x}\",\"{key}\":[],\"{key}f\":[]");
+                    }
+                };
+                let mut s = format!("\"ev\":\"comp\",\"call\":\"RgbToXyb\",\"tc\":{t},\"cp\":{p},\"w\":{w},\"h\":{h}");
+                both(&mut s, "direct", &crate::util::guard_s(|| Xyb::try_from(rgb()?).map(|x| x.data().to_vec()).map_err(e)));
+                both(&mut s, "chain", &crate::util::guard_s(|| LinearRgb::try_from(rgb()?).map(|l| Xyb::from(l).data().to_vec()).map_err(e)));
+                sh.emit(&s);
+                let mut s = format!("\"ev\":\"comp\",\"call\":\"XybToRgb\",\"tc\":{t},\"cp\":{p},\"w\":{w},\"h\":{h}");
+                both(&mut s, "direct", &crate::util::guard_s(|| Rgb::try_from((xyb()?, tt, pp)).map(|x| x.data().to_vec()).map_err(e)));
+                both(&mut s, "chain", &crate::util::guard_s(|| Rgb::try_from((LinearRgb::from(xyb()?), tt, pp)).map(|x| x.data().to_vec()).map_err(e)));
+                sh.emit(&s);
+                n += 2;
+            }
+        }
+    }
+    serde_json::json!({"composites": n, "distinct": n})
+}
+
 pub fn gen_c11(sh: &mut Shards, o: &Opts) -> serde_json::Value {
     let mut rng = Rng::new(o.seed, 0x1111);
     let mut n = 0u64;
